@@ -632,6 +632,45 @@ fn systematic_hostile() -> &'static Vec<Mutant> {
                 push(&mut out, &format!("({t} {body})"), format!("(defsrc a b)\n(deflayer base a b)\n({t} {body})\n"), vec![("a".into(), "a\tb\n".into())]);
             }
         }
+        // (3b) every top-level form written twice and three times, under each of its spellings and in
+        // both orders (the "only one allowed" diagnostics look the second block up again)
+        {
+            let valid: &[(&[&str], &str)] = &[
+                (&["defcfg"], "process-unmapped-keys yes"),
+                (&["defsrc"], "a b"),
+                (&["deflayer"], "base a b"),
+                (&["deflayermap"], "(base) a b"),
+                (&["defalias"], "q a"),
+                (&["defvar"], "q a"),
+                (&["deftemplate"], "q () a"),
+                (&["defvirtualkeys", "deffakekeys"], "q a"),
+                (&["defchords"], "q 50 (a) a"),
+                (&["defchordsv2", "defchordsv2-experimental"], "(a b) c 50 all-released ()"),
+                (&["defseq"], "q (a b)"),
+                (&["defoverrides"], "(lsft a) (lsft 9)"),
+                (&["defzippy", "defzippy-experimental"], "a"),
+                (&["deflocalkeys-linux", "deflocalkeys-win", "deflocalkeys-winiov2", "deflocalkeys-wintercept", "deflocalkeys-macos"], "q 300"),
+                (&["defaliasenvcond"], "(E v) q a"),
+                (&["include"], "a"),
+            ];
+            let base = "(defcfg concurrent-tap-hold yes)\n(defsrc a b)\n(deflayer base a b)\n(defvirtualkeys q0 a)\n";
+            for (names, body) in valid {
+                for n1 in names.iter() {
+                    for n2 in names.iter() {
+                        let pre = if *n1 == "defcfg" || *n1 == "defsrc" || *n1 == "deflayer" { "(defcfg concurrent-tap-hold yes)\n(defsrc a b)\n(deflayer base a b)\n".replace(&format!("({n1} "), "(ignored ") } else { base.to_string() };
+                        let body2 = body.replace("q ", "q2 ").replace("(base)", "(base2)").replace("base a", "base2 a");
+                        for text in [
+                            format!("{pre}({n1} {body})\n({n2} {body})\n"),
+                            format!("{pre}({n1} {body})\n({n2} {body2})\n"),
+                            format!("{pre}({n1} {body})\n({n2} {body2})\n({n1} {body})\n"),
+                            format!("({n1} {body})\n{pre}({n2} {body2})\n"),
+                        ] {
+                            push(&mut out, &format!("{n1} + {n2} repeated"), text, vec![("a".into(), "ab\tx\n".into())]);
+                        }
+                    }
+                }
+            }
+        }
         // (4) defvar reference graphs over three variables, with use sites
         let vals = ["$a", "$b", "$c", "1", "($a)", "(concat $b)", "(multi $c)", "(concat $a $b)", "($b $c)"];
         for va in vals {
@@ -870,7 +909,7 @@ impl Check for C03Check {
         j.out
     }
     fn rule(&self) -> String {
-        format!("first block (identical for every seed): the systematic hostile family - every list-action keyword of parser/src/cfg/list_actions.rs (read from /repo at run time) x arity 0..5 x every argument kind and one odd slot in a plausible call; every defcfg option x boundary values (alone and in a configuration that uses the features the options configure); string shapes (empty, raw, lone quote built by concat, multi-byte) at every place that takes free text; every top-level form with degenerate bodies; defvar reference graphs over three variables (self, mutual and longer cycles through atoms, lists, concat) with use sites; one valid instance of every top-level form / rich action with each token replaced by hostile atoms, deleted or doubled; the same forms built by a template whose definition and call are in different files (main/included in both directions, and two included files), each sub-expression in turn supplied by the call with valid and hostile arguments, so that sibling expressions carry positions of different files; zippychord dictionary files; lexical endings (unterminated string / raw string / block comment / parenthesis) at end of file followed by 1-4-byte characters, in the main and in an included file. Then: case = {MUTANTS_PER_CASE} texts derived from one seed text: every shipped sample config, every parser test config, every [source] block of docs/config.adoc (fragments wrapped with a minimal defsrc/deflayer), every config string literal in the test sources (all read from /repo at run time; this block of cases is identical for every VERIF_SEED), and grammar-generated valid configs (random part). Texts are produced by structure-aware mutation inside one top-level form (delete/duplicate/swap/splice sub-expressions, () for atoms, atoms for lists, boundary numbers, unknown and self-referential names, dropped/extra arguments, wrap/unwrap) and by byte-level mutation (insert/delete/flip/truncate, multi-byte characters, unterminated strings/comments); included files are damaged, emptied, removed or replaced by a directory. Bounds: <= 64 KiB, parenthesis depth <= 64. Both entry points (new_from_str with a file map, new_from_file on a scratch directory). Non-trivial/distinct = distinct (seed, mutation kinds, head of mutated form) descriptions and distinct diagnostic messages.")
+        format!("first block (identical for every seed): the systematic hostile family - every list-action keyword of parser/src/cfg/list_actions.rs (read from /repo at run time) x arity 0..5 x every argument kind and one odd slot in a plausible call; every defcfg option x boundary values (alone and in a configuration that uses the features the options configure); string shapes (empty, raw, lone quote built by concat, multi-byte) at every place that takes free text; every top-level form with degenerate bodies, and written two / three times under each of its spellings in both orders; defvar reference graphs over three variables (self, mutual and longer cycles through atoms, lists, concat) with use sites; one valid instance of every top-level form / rich action with each token replaced by hostile atoms, deleted or doubled; the same forms built by a template whose definition and call are in different files (main/included in both directions, and two included files), each sub-expression in turn supplied by the call with valid and hostile arguments, so that sibling expressions carry positions of different files; zippychord dictionary files; lexical endings (unterminated string / raw string / block comment / parenthesis) at end of file followed by 1-4-byte characters, in the main and in an included file. Then: case = {MUTANTS_PER_CASE} texts derived from one seed text: every shipped sample config, every parser test config, every [source] block of docs/config.adoc (fragments wrapped with a minimal defsrc/deflayer), every config string literal in the test sources (all read from /repo at run time; this block of cases is identical for every VERIF_SEED), and grammar-generated valid configs (random part). Texts are produced by structure-aware mutation inside one top-level form (delete/duplicate/swap/splice sub-expressions, () for atoms, atoms for lists, boundary numbers, unknown and self-referential names, dropped/extra arguments, wrap/unwrap) and by byte-level mutation (insert/delete/flip/truncate, multi-byte characters, unterminated strings/comments); included files are damaged, emptied, removed or replaced by a directory. Bounds: <= 64 KiB, parenthesis depth <= 64. Both entry points (new_from_str with a file map, new_from_file on a scratch directory). Non-trivial/distinct = distinct (seed, mutation kinds, head of mutated form) descriptions and distinct diagnostic messages.")
     }
     fn assumptions(&self) -> Vec<String> {
         vec![
